@@ -274,7 +274,7 @@ pub fn build<S: StorageData>(db: &mut DbImpl<S>, spec: &GraphSpec) -> Result<Ref
 }
 
 pub fn build_memory(spec: &GraphSpec) -> Result<(agdb::DbMemory, RefGraph), String> {
-    let mut db = agdb::DbMemory::new("search_checks").map_err(|e| e.description)?;
+    let mut db = agdb::DbMemory::new(MEMORY_DB_NAME).map_err(|e| e.description)?;
     let g = build(&mut db, spec)?;
     Ok((db, g))
 }
@@ -467,3 +467,6 @@ pub fn work_items(alpha: &[Op], depth: usize, split: usize) -> Vec<(Vec<Op>, boo
     });
     items
 }
+
+/// `DbMemory::new(name)` loads the file `name` if it exists; this one never does.
+pub const MEMORY_DB_NAME: &str = "/nonexistent/verif-search-checks-memory-db";
